@@ -1293,6 +1293,18 @@ func (a *an) containsPanic(stmts []ast.Stmt) bool {
 	return found
 }
 
+// mentionsAny: does the expression contain a Timeout()/Temporary() call?
+func mentionsAny(e ast.Expr, isCall func(ast.Expr, string) bool) bool {
+	found := false
+	ast.Inspect(e, func(x ast.Node) bool {
+		if ex, ok := x.(ast.Expr); ok && (isCall(ex, "Timeout") || isCall(ex, "Temporary")) {
+			found = true
+		}
+		return true
+	})
+	return found
+}
+
 type handleFacts struct {
 	panics, inline, guarded, retryStops bool
 }
@@ -1760,6 +1772,37 @@ func (a *an) handleAnalysis() (hf handleFacts, err error) {
 	})
 	if nRetry != 1 {
 		return bad("expected exactly one `if err.Timeout() || err.Temporary()` in the reader goroutine, found %d", nRetry)
+	}
+	// the class of read errors that is retried: as a function of (Timeout(), Temporary()) the
+	// condition must be the disjunction (anything else in it - `ok &&` of a type assertion - taken as true)
+	var evalCond func(e ast.Expr, to, te bool) bool
+	evalCond = func(e ast.Expr, to, te bool) bool {
+		e = unparen(e)
+		switch {
+		case isNetErrCall(e, "Timeout"):
+			return to
+		case isNetErrCall(e, "Temporary"):
+			return te
+		}
+		switch x := e.(type) {
+		case *ast.BinaryExpr:
+			switch x.Op {
+			case token.LOR:
+				return evalCond(x.X, to, te) || evalCond(x.Y, to, te)
+			case token.LAND:
+				return evalCond(x.X, to, te) && evalCond(x.Y, to, te)
+			}
+		case *ast.UnaryExpr:
+			if x.Op == token.NOT && mentionsAny(x.X, isNetErrCall) {
+				return !evalCond(x.X, to, te)
+			}
+		}
+		return true
+	}
+	for _, v := range [][2]bool{{false, false}, {false, true}, {true, false}, {true, true}} {
+		if evalCond(retryIf.Cond, v[0], v[1]) != (v[0] || v[1]) {
+			return bad("the reader retries a read error under a condition that is not `Timeout() || Temporary()` (it differs for Timeout=%v, Temporary=%v)", v[0], v[1])
+		}
 	}
 	// every path through the branch ends in continue or return; returns only inside a select that
 	// receives from t.ctx.Done() (and possibly the closed channel) and has a default that goes on
